@@ -20,12 +20,34 @@ def impl(case: Case) -> str:
     def configure(sim):
         if trace:
             sim.trace = True
-    out, sim, problems = rs.run_real(c, configure=configure)
+    leaked = []
+
+    def after_request(sim, r, o):
+        # after EVERY request, failed or not, the tracer's tree cursor is back at the root
+        if trace and getattr(sim.tracer, "_current_node", None) is not None:
+            leaked.append(r)
+    out, sim, problems = rs.run_real(c, configure=configure, after_request=after_request)
     if trace:
-        # the tracer's tree cursor must be back at the root too
-        cur = getattr(sim.tracer, "_current_node", None)
-        if cur is not None:
+        if leaked or getattr(sim.tracer, "_current_node", None) is not None:
             out += "#CURSOR"
+        # the tracer is reused after the failures: one more request opens exactly one new ROOT calculation
+        last = next((r for r in reversed(c.reqs) if r[0] == "calc" and r[1] < len(c.vars)), None)
+        if last is not None:
+            from ..perutil import parse_period_token
+            before = len(sim.tracer.trees)
+            try:
+                sim.calculate(f"v{last[1]}", parse_period_token(last[2]))
+            except Exception:
+                pass
+            trees = sim.tracer.trees
+            if not (len(trees) == before + 1 and trees[-1].name == f"v{last[1]}" and trees[-1].parent is None
+                    and getattr(sim.tracer, "_current_node", None) is None and not sim.tracer.stack):
+                out += "#REUSE"
+            try:
+                sim.tracer.get_flat_trace()
+                sim.tracer.computation_log.lines()
+            except Exception as exc:
+                out += f"#REUSE:{type(exc).__name__}"
     return out
 
 
@@ -41,7 +63,9 @@ def oracle(case: Case, out: str):
         return None
     c: rs.SysCase = pickle.loads(bytes.fromhex(case.payload))
     if "#CURSOR" in out:
-        return ("tracer-cursor-not-restored", "FullTracer._current_node is not None after the last top-level request")
+        return ("tracer-cursor-not-restored", "FullTracer._current_node is not None after a top-level request")
+    if "#REUSE" in out:
+        return ("tracer-not-reusable", "after the failures a further request did not open exactly one new root calculation in the trace, or the trace cannot be read: " + out.split("#REUSE")[1][:60])
     out = out.replace("#CURSOR", "")
     res, known = out.split("|", 1)
     got = res.split(";")
@@ -60,14 +84,19 @@ def oracle(case: Case, out: str):
             return v
         return None
     want = c01.expected_results(c)                       # meaning under the faults armed at that moment
-    c_nofault = rs.derive(c, reqs=[r for r in c.reqs if r[0] in ("calc", "add")], config={})
+    c_nofault = rs.derive(c, reqs=[r for r in c.reqs if r[0] in ("calc", "add", "div", "out")], config={})
     clean = iter(c01.expected_results(c_nofault))        # meaning with no fault armed
     for i, (g, w) in enumerate(zip(got, want)):
         if "#STATE" in g:
             return ("stack-or-invalidated-left", f"request {c.reqs[i]}: evaluation stack or invalidated set not empty after the request")
         if c.reqs[i][0] == "badp" and g != "ERR":
             return ("unparsable-period-accepted", f"request {c.reqs[i]} with a period text that cannot be parsed returned {g}")
-        if c.reqs[i][0] not in ("calc", "add"):
+        if c.reqs[i][0] == "get":
+            # get_array never computes and never fails for a known variable: nothing, or a completed value
+            if isinstance(w, tuple) and g != "g:none" and not g.startswith("g:"):
+                return ("get-array-failed", f"request #{i} {c.reqs[i]}: get_array returned {g}")
+            continue
+        if c.reqs[i][0] not in ("calc", "add", "div", "out"):
             continue
         w0 = next(clean)
         if "#STATE" in g:
@@ -112,13 +141,20 @@ def nontrivial(case: Case, out: str) -> bool:
 
 
 def generate(rng: random.Random, tier: str):
-    n = 15000 if tier == "quick" else 100000
+    n = 11000 if tier == "quick" else 80000
     out = []
     for i in range(n):
         faults: list = []
         u = rng.random()
         kind = "cycle" if u < 0.2 else ("spiral" if u < 0.45 else "ranked")
-        c = rs.gen_case(rng, kind=kind, msl=rng.choice([1, 1, 2]), fault_ids=faults, bad_rate=0.05 if rng.random() < 0.4 else 0.0, nreq=rng.randint(3, 6))
+        # 60%: the extended language and the further failure kinds -- a failure AFTER the dependencies completed, a formula
+        # result the engine must refuse (wrong length, strings), a parameter that does not exist (yet), a DIVIDE request
+        # the guards refuse, unknown variables through every entry point, failure points inside a spiral
+        ext = None
+        if rng.random() < 0.6:
+            ext = {"spiral_faults"} if kind == "spiral" else {"divide", "params", "post_fail", "requests"}
+        c = rs.gen_case(rng, kind=kind, msl=rng.choice([1, 1, 2]), fault_ids=faults, bad_rate=0.05 if rng.random() < 0.4 else 0.0, nreq=rng.randint(3, 6),
+                        features=ext)
         base = list(c.reqs)
         reqs = []
         # arm each fault in turn (every node of the evaluation tree carries one with probability 15%),
@@ -165,9 +201,16 @@ PROP = Prop(
           "system runs with tracing off and on; compared with the model: error class or value of every request, stack, and the final set of known "
           "values; oracle: errors reach the caller, nothing is recorded for a computation that did not complete, retained values equal their "
           "meaning, later requests and retries equal the meaning (which error class reaches the caller is pinned by the model only); for spiral "
-          "systems: nothing on the stack / marked after a failed request, every retained value reproducible. Non-trivial = at least one failing and one succeeding request."),
+          "systems: nothing on the stack / marked after a failed request, every retained value reproducible. 60% of the systems carry the further "
+          "failure kinds: a fault raised AFTER the dependencies of the sub-expression completed, a formula result the engine must refuse (an array one "
+          "value short, an array of strings for a numeric variable: the error comes from the cast / the store, after the formula returned), a parameter "
+          "that does not exist or has no value yet (ParameterNotFoundError), DIVIDE / ADD requests the guards refuse (in formulas and at top level), "
+          "unknown variables through calculate / calculate_add / calculate_divide / calculate_output / get_array, failure points inside spirals (before and "
+          "after the spiralling read), get_array and delete_arrays between failing requests; with tracing on the tracer's cursor is checked after EVERY "
+          "request and the tracer is reused afterwards (one more request must open exactly one new root calculation, the flat trace and the log must be "
+          "readable). Non-trivial = at least one failing and one succeeding request."),
     assumptions=[
-        "failures are those of the DSL: an injected exception in a formula, a circular definition, a dependency on an invalid period or unknown variable, an unparsable period argument",
+        "failures are those of the DSL: an injected exception in a formula (before or after its dependencies), a formula result of the wrong length / dtype, a circular definition, a dependency on an invalid period or unknown variable or missing parameter, a refused ADD / DIVIDE request, an unparsable period argument",
         "values are small integers exactly representable in float32",
     ],
 )
